@@ -410,6 +410,58 @@ func TestVerif_C13_RefCountThroughMux(t *testing.T) {
 	})
 }
 
+// Reference counting through the TCP mux.
+func TestVerif_C13_RefCountThroughTCPMux(t *testing.T) {
+	st := vfNewStats(t)
+	lf := logging.NewDefaultLoggerFactory()
+	lf.DefaultLogLevel = logging.LogLevelDisabled
+	rapid.Check(t, func(rt *rapid.T) {
+		n := rapid.IntRange(2, 5).Draw(rt, "handles")
+		order := rapid.Permutation([]int{0, 1, 2, 3, 4}[:n]).Draw(rt, "closeOrder")
+		ln := newC15Listener()
+		mux := NewTCPMuxDefault(TCPMuxParams{Listener: ln, Logger: lf.NewLogger("verif"), ReadBufferSize: 8})
+		defer mux.Close() //nolint:errcheck
+		localIP := net.IPv4(10, 0, 0, 1)
+		var hs []net.PacketConn
+		for i := 0; i < n; i++ {
+			h, err := mux.GetConnByUfrag("ufragT", false, localIP)
+			if err != nil {
+				rt.Fatalf("harness: %v", err)
+			}
+			hs = append(hs, h)
+		}
+		mux.mu.Lock()
+		under, _ := mux.getConn("ufragT", false, localIP)
+		mux.mu.Unlock()
+		for k, idx := range order {
+			_ = hs[idx].Close()
+			if rapid.Bool().Draw(rt, "twice") {
+				_ = hs[idx].Close()
+			}
+			closed := under.isClosed()
+			if k < n-1 {
+				if closed {
+					st.Fail(rt, "C13/refcount/underlying-closed-early", "tcp mux: underlying connection closed after %d of %d handles were closed", k+1, n)
+				}
+				for _, j := range order[k+1:] {
+					if err := hs[j].SetReadDeadline(time.Now().Add(time.Second)); err != nil {
+						st.Fail(rt, "C13/refcount/sibling-disturbed", "tcp mux: sibling handle unusable after another handle closed: %v", err)
+					}
+				}
+				if err := hs[idx].SetReadDeadline(time.Now()); !errors.Is(err, io.ErrClosedPipe) {
+					st.Fail(rt, "C13/refcount/closed-handle-usable", "tcp mux: closed handle still usable: %v", err)
+				}
+			} else if !closed {
+				st.Fail(rt, "C13/refcount/underlying-not-closed", "tcp mux: underlying connection still open after the last handle was closed")
+			}
+		}
+		st.Record(vfHash("tcp", n, order), true, "tcp-mux")
+		if st.WantSample() {
+			st.Sample(func() string { return fmt.Sprintf("tcp mux: %d handles, close order %v", n, order) })
+		}
+	})
+}
+
 // (b) abort protocol on the shared socket.
 func TestVerif_C13_WriteAbort(t *testing.T) {
 	st := vfNewStats(t)
